@@ -21,7 +21,7 @@ def gen(ctx, n):
         mode = kw.pop('mode', None) or r.choice(['hooks', 'hooks', 'functorch', 'ew'])
         cases.append(dict({'seed': r.randint(0, 10**6), 'tpl': tpl, 'a': a, 'mode': mode, 'red': r.choice(['mean', 'sum']), 'B': r.choice([0, 1, 2, 3, 4])}, **kw))
     for _ in range(n):
-        k = r.randrange(11)
+        k = r.randrange(12)
         if k == 0:
             add('mlp', {'d': r.randint(1, 4), 'h': r.randint(1, 4), 'o': r.randint(1, 3), 'bias': r.random() < 0.7, 'mid': [r.randint(1, 3) for _ in range(r.randint(0, 2))]},
                 scale=r.choice([1.0, 10.0]))
@@ -56,8 +56,12 @@ def gen(ctx, n):
             add('mha', {'E': H * r.randint(1, 2), 'H': H, 'bf': bf, 'o': 2, 'bkv': (not bf) and r.random() < 0.4, 'T': r.randint(1, 3)}, mode=r.choice(['hooks', 'functorch']))
         elif k == 9:
             add('custom', {'d': r.randint(1, 3), 'h': r.randint(1, 3), 'o': 2}, mode=r.choice(['hooks', 'functorch']))
-        else:
+        elif k == 10:
             add('tied', {'d': r.randint(1, 3), 'o': 2}, frozen=r.choice([[], ['lin.bias'], ['out.weight']]))
+        else:
+            add('tied_emb', {'V': r.randint(3, 7), 'd': r.randint(1, 3), 'n': r.randint(1, 3)}, mode=r.choice(['hooks', 'functorch']))
+        if r.random() < 0.35 and cases[-1]['B'] > 0:
+            cases[-1]['pre_B'] = cases[-1]['B'] + r.randint(1, 3)
     return cases
 
 
